@@ -119,6 +119,13 @@ cfg_not_miri! {
                 // clippy::let_and_return occures on not(feature = "metrics")
                 // but would produce invalid code with feature "metrics"
                 //
+                pub(crate) fn next_time(&self) -> Option<SimTime> {
+                    self.zero_queue
+                        .front()
+                        .map(|event| event.time)
+                        .or_else(|| self.heap.peek().map(|event| event.time))
+                }
+
                 #[allow(clippy::let_and_return)]
                 #[allow(clippy::needless_pass_by_value)]
                 #[allow(clippy::cast_precision_loss)]
@@ -202,6 +209,10 @@ cfg_not_miri! {
                     Self {
                         inner: CQueue::new(options.cqueue_num_buckets, options.cqueue_bucket_timespan),
                     }
+                }
+
+                pub(crate) fn next_time(&self) -> Option<SimTime> {
+                    self.inner.next_time().map(SimTime::from_duration)
                 }
 
                 #[allow(clippy::needless_pass_by_value)]
@@ -345,6 +356,13 @@ cfg_miri! {
             }
 
             //
+            pub(crate) fn next_time(&self) -> Option<SimTime> {
+                self.zero_queue
+                    .front()
+                    .map(|event| event.time)
+                    .or_else(|| self.heap.peek().map(|event| event.time))
+            }
+
             // clippy::let_and_return occures on not(feature = "metrics")
             // but would produce invalid code with feature "metrics"
             //
